@@ -441,7 +441,133 @@ class FnTerms:
             vals, other = switch_edge_values(term, s)
             excl = [int(v) for v, bb in term["targets"] if bb != s]
             out.append((self.switch_term(d), vals, other, excl, d))
+        # a test of the variant of a value that was built as a literal Ok / Err / Some / None on each way into a join
+        # (the usual picture after a Result-returning helper has been spliced in, followed by `?`) selects the ways in:
+        # when exactly one of them fits, everything known on that way holds here as well
+        seen_sw = {e[4] for e in out}
+        for d_, vals, other, excl, sb in list(out):
+            x = d_
+            if x[0] != "discr":
+                continue
+            x = x[1]
+            via_branch = False
+            if x[0] == "call" and x[1] in TRY_BRANCH and len(x[2]) == 1:
+                via_branch, x = True, x[2][0]
+            while x[0] in ("ref", "deref"):
+                x = x[2] if x[0] == "ref" else x[1]
+            if not (x[0] == "phi" and x[1] == self.path):
+                continue
+            allowed = set(vals) if not other else ({0, 1} - set(excl))
+            leaves = []
+            okl = True
+
+            def go(t_, pred_, depth_):
+                nonlocal okl
+                if t_[0] == "phi" and t_[1] == self.path and depth_ < 6:
+                    for p2, o2 in self.phi_operands(t_).items():
+                        go(o2, p2, depth_ + 1)
+                elif literal_variant(t_) is not None:
+                    leaves.append((pred_, literal_variant(t_)))
+                else:
+                    okl = False
+            go(x, None, 0)
+            if not okl or not leaves:
+                continue
+            # variant index as tested: through Try::branch Continue(0) <-> Ok / Some, Break(1) <-> Err / None
+            def idx_of(v_):
+                if via_branch:
+                    return 0 if v_ in ("Ok", "Some") else 1
+                return {"Ok": 0, "Err": 1, "None": 0, "Some": 1}[v_]
+            fit = [p_ for p_, v_ in leaves if idx_of(v_) in allowed]
+            if len(fit) == 1 and fit[0] is not None and fit[0] != b:
+                for e in self.conditions(fit[0]):
+                    if e[4] not in seen_sw:
+                        seen_sw.add(e[4])
+                        out.append(e)
         return out
+
+
+def literal_variant(t):
+    """'Ok' / 'Err' / 'Some' / 'None' when t is built as that variant whatever the inputs: a literal constructor, or the
+    error hand-over of `?` (FromResidual::from_residual yields Err / None)"""
+    if t[0] == "agg" and t[1] == "adt" and isinstance(t[2], str) and t[2].split("::")[-1] in ("Ok", "Err", "Some", "None"):
+        return t[2].split("::")[-1]
+    if t[0] == "call" and isinstance(t[1], str) and t[1].endswith("::from_residual"):
+        if "result::Result" in t[1]:
+            return "Err"
+        if "option::Option" in t[1]:
+            return "None"
+    return None
+
+
+def _variant_test(ft, d):
+    """(phi term, via Try::branch?) when the switch discriminant d tests the variant of a joined Result / Option"""
+    if d[0] != "discr":
+        return None
+    x = d[1]
+    via = False
+    if x[0] == "call" and x[1] in TRY_BRANCH and len(x[2]) == 1:
+        via, x = True, x[2][0]
+    while x[0] in ("ref", "deref"):
+        x = x[2] if x[0] == "ref" else x[1]
+    if x[0] == "phi" and x[1] == ft.path:
+        return x, via
+    return None
+
+
+def reachable_threaded(ft, pred, start):
+    """blocks reachable after taking the edge pred -> start, where a switch on the variant of a value that was built as a
+    literal Ok / Err / Some / None on the way taken follows only the matching edge (a `?` right after a spliced helper
+    does not continue on the helper's Err result)"""
+    tests = {}
+    joins = set()
+    for b in ft.cfg.reach:
+        tm = ft.blocks[b]["term"]
+        if tm["k"] == "switch":
+            vt = _variant_test(ft, ft.switch_term(b))
+            if vt is not None:
+                tests[b] = vt
+                st = [vt[0]]
+                seen = set()
+                while st:
+                    ph = st.pop()
+                    if ph in seen:
+                        continue
+                    seen.add(ph)
+                    joins.add(ph[2])
+                    for o in ft.phi_operands(ph).values():
+                        if o[0] == "phi" and o[1] == ft.path:
+                            st.append(o)
+    seen = set()
+    out = set()
+    st = [(start, ((start, pred),) if start in joins else ())]
+    while st:
+        b, known = st.pop()
+        if (b, known) in seen or len(seen) > 20000:
+            continue
+        seen.add((b, known))
+        out.add(b)
+        kd = dict(known)
+        succs = list(ft.cfg.succ[b])
+        if b in tests:
+            x, via = tests[b]
+            for _ in range(6):
+                if x[0] == "phi" and x[1] == ft.path and x[2] in kd:
+                    x = ft.phi_operands(x).get(kd[x[2]], ("unknown",))
+                else:
+                    break
+            v_ = literal_variant(x)
+            if v_ is not None:
+                idx = (0 if v_ in ("Ok", "Some") else 1) if via else {"Ok": 0, "Err": 1, "None": 0, "Some": 1}[v_]
+                tm = ft.blocks[b]["term"]
+                hit = [bb for v, bb in tm["targets"] if int(v) == idx]
+                succs = hit if hit else [tm["otherwise"]]
+        for s_ in succs:
+            k2 = dict(kd)
+            if s_ in joins:
+                k2[s_] = b
+            st.append((s_, tuple(sorted(k2.items()))))
+    return out
 
 
 def place_key(pl):
